@@ -450,8 +450,9 @@ func (fa *Facts) transfer(in DNF, pred, succ *ssa.BasicBlock, predIdx int) DNF {
 				}
 				continue
 			}
-			if b, ok := phi.Type().Underlying().(*types.Basic); ok && b.Info()&types.IsString != 0 {
-				// provenance of string-valued phis (user names etc.): on this path the phi IS the operand
+			isDur := NamedTypeOf(phi.Type()) == "time.Duration"
+			if b, ok := phi.Type().Underlying().(*types.Basic); ok && (b.Info()&types.IsString != 0 || isDur) {
+				// provenance of string-valued phis (user names etc.) and of durations: on this path the phi IS the operand
 				add = append(add, Fact{Op: token.EQL, X: phi, Y: op})
 			}
 			for _, g := range nList {
